@@ -744,3 +744,37 @@ def canon(func):
 
 def ctext(func) -> str:
     return norm(canon(func))
+
+
+def reachable_functions(mod, f):
+    """`f` and the functions of the same module it reaches by name: direct references / calls, functions listed in module- or
+    class-level tables the code refers to (`HANDLERS = {Cls: handler}`), handlers named by strings in such tables (getattr
+    dispatch).  For rules that must look at "the dispatcher" wherever its cases were moved to."""
+    table = {}
+    for q, node in mod.defs.items():
+        if isinstance(node, (ast.FunctionDef, ast.AsyncFunctionDef)):
+            table.setdefault(q.split(".")[-1], []).append(node)
+    tables = {}
+    for owner in [mod.tree] + [c for c in ast.walk(mod.tree) if isinstance(c, ast.ClassDef)]:
+        for st in owner.body:
+            tg = st.targets[0] if isinstance(st, ast.Assign) and len(st.targets) == 1 else st.target if isinstance(st, ast.AnnAssign) else None
+            if isinstance(tg, ast.Name) and getattr(st, "value", None) is not None:
+                tables[tg.id] = st.value
+    seen, todo, out = set(), [f], []
+    while todo:
+        g = todo.pop()
+        if id(g) in seen:
+            continue
+        seen.add(id(g))
+        is_fn = isinstance(g, (ast.FunctionDef, ast.AsyncFunctionDef))
+        if is_fn:
+            out.append(g)
+        for n in ast.walk(g):
+            nm = n.id if isinstance(n, ast.Name) else n.attr if isinstance(n, ast.Attribute) else None
+            if nm in table:
+                todo += table[nm]
+            if nm in tables:
+                todo.append(tables[nm])
+            if not is_fn and isinstance(n, ast.Constant) and isinstance(n.value, str) and n.value in table:
+                todo += table[n.value]
+    return out
